@@ -65,8 +65,14 @@ def run_property(prop, tier, seed):
         print(f'CHECKER-FAULT property={prop}: no contract serves this property (zero obligations)')
         return 3
     known = load_known(prop)
+    rdir = os.path.join(VERIF, 'replays', prop)
+    if os.path.isdir(rdir):
+        for fn in os.listdir(rdir):
+            if fn.endswith('.json'):
+                os.unlink(os.path.join(rdir, fn))
     timeout_s = 10 if tier == 'quick' else 60
-    budget = 400 if tier == 'quick' else 6000
+    budget = 20000 if tier == 'quick' else 400000
+    search_seconds = 4 if tier == 'quick' else 60
 
     results = []
     all_obs = []
@@ -107,13 +113,16 @@ def run_property(prop, tier, seed):
         failed = []
         canary_sat = 0
         canary_total = 0
+        canary_unknown = 0
         for ob in r.obligations:
             res = ob.result or {'verdict': 'unknown'}
             if res['verdict'] == 'disagree':
                 faults.append(f'{ob.name}: solvers disagree ({res.get("detail")})')
                 continue
             if ob.expect == 'sat':
-                if res['verdict'] != 'unknown':
+                if res['verdict'] == 'unknown':
+                    canary_unknown += 1
+                else:
                     canary_total += 1
                 if res['verdict'] == 'sat':
                     canary_sat += 1
@@ -127,7 +136,7 @@ def run_property(prop, tier, seed):
             else:
                 failed.append(ob)
         if c.canary and r.out_of_subset is None and r.path_count > 0:
-            if canary_sat == 0 and canary_total > 0:
+            if canary_sat == 0 and canary_total > 0 and canary_unknown == 0:
                 faults.append(f'{c.id}: canary (a deliberately false postcondition) was "proved" on every path - vacuous contract?')
             canaries_refuted += canary_sat
         entry = {'contract': c.id, 'target': c.target, 'role': role, 'paths': r.path_count,
@@ -153,7 +162,7 @@ def run_property(prop, tier, seed):
         # ---- something is not proved: find a concrete failing input on the real code
         witness = None
         reason = r.out_of_subset and f'out of subset: {r.out_of_subset}'
-        failed_clauses = sorted({o.name.split('.', 1)[1].split('#')[0] for o in failed if o.kind == 'post'})
+        failed_clauses = sorted({o.meta.get('cname') for o in failed if o.kind == 'post' and o.meta.get('cname')})
         refuted = [o for o in failed if (o.result or {}).get('verdict') == 'sat']
         for ob in refuted:
             w = replay_model(c, ob, timeout_s)
@@ -163,15 +172,15 @@ def run_property(prop, tier, seed):
         st = None
         if witness is None and getattr(c, 'searchable', True):
             clause_filter = set(failed_clauses) if failed_clauses and not r.out_of_subset else set()
-            found, st = native.search(c, clause_filter, seed, budget)
+            found, st = native.search(c, clause_filter, seed, budget, seconds=search_seconds)
             st = dict(st)
             st['contract'] = c.id
             bounded.append({'what': f'bounded search on the real {c.target} against the clauses of {c.id}',
-                            'bound': f'{budget} random cases from the contract generators (seed {seed})', **st})
+                            'bound': f'at most {budget} random cases / {search_seconds} s from the contract generators (seed {seed})', **st})
             if found is not None:
                 if matches_carve(c, {'raw': found['raw']}, known):
                     # keep looking outside the carve-out
-                    found2, st2 = native.search(c, clause_filter, seed + 7919, budget, )
+                    found2, st2 = native.search(c, clause_filter, seed + 7919, budget, seconds=search_seconds)
                     found = found2 if (found2 is not None and not matches_carve(c, {'raw': found2['raw']}, known)) else None
                 if found is not None:
                     witness = {'source': 'bounded-search', 'inputs': found['inputs'], 'out': found['out'], 'failed': found['failed'],
@@ -289,7 +298,7 @@ def apply_carve_outs(table, reg, c, r):
     from .run import Run, Explorer
     from .contracts import call_clause, _b
     for ob in r.obligations:
-        cname = ob.name.split('.', 1)[1].split('#')[0]
+        cname = ob.meta.get('cname')
         preds = c._carve.get(cname)
         if not preds or ob.expect != 'unsat':
             continue
@@ -372,7 +381,6 @@ def replay_model(c, ob, timeout_s):
         return None
     if not out.get('requires_ok'):
         return None
-    cname = ob.name.split('.', 1)[1].split('#')[0]
     bad = [cn for cn, ok in out.get('clauses', {}).items() if ok is not True]
     if bad:
         return {'source': 'solver-model', 'inputs': {k_: native._short(v, 2000) for k_, v in raw.items()},
